@@ -9,16 +9,16 @@ CONFIG = {
  'C01': dict(level='proof', tags={'C01'}, owns_crash=['parser', 'other'],
              profiles=[('any', 3000, 60000), ('reuse', 1000, 20000), ('verify', 1500, 40000), ('nav', 1000, 20000)],
              assumptions=[A_MODEL, A_SIZE, 'field lookups are issued only while positioned inside an object (documented)']),
- 'C02': dict(level='proof', tags={'C02'}, profiles=[('verify', 6000, 300000), ('stream', 500, 10000)], assumptions=[A_MODEL, A_SIZE]),
+ 'C02': dict(level='proof', tags={'C02'}, profiles=[('verify', 6000, 300000), ('stream', 500, 10000), ('xverify', 4, 5)], assumptions=[A_MODEL, A_SIZE]),
  'C03': dict(level='proof', tags={'C03'}, profiles=[('walk', 1500, 40000), ('navg', 1500, 40000)], assumptions=[A_MODEL, A_SIZE]),
  'C04': dict(level='proof', tags={'C04'}, owns_crash=['writer'], profiles=[('writer', 1200, 30000)], assumptions=[A_MODEL, A_SIZE, 'valid arguments: non-NULL pointers, lengths <= INT32_MAX']),
  'C05': dict(level='proof', tags={'C05'}, profiles=[('rt', 800, 20000), ('writer', 600, 10000)], assumptions=[A_MODEL, A_SIZE]),
- 'C06': dict(level='proof', tags={'C06'}, profiles=[('nav', 4000, 150000), ('navg', 1000, 30000)], assumptions=[A_MODEL, A_SIZE]),
- 'C07': dict(level='proof', tags={'C07'}, profiles=[('nav', 4000, 150000)], assumptions=[A_MODEL, A_SIZE]),
+ 'C06': dict(level='proof', tags={'C06'}, profiles=[('nav', 4000, 150000), ('navg', 1000, 30000), ('xnav', 46, 58)], assumptions=[A_MODEL, A_SIZE]),
+ 'C07': dict(level='proof', tags={'C07'}, profiles=[('nav', 4000, 150000), ('xnav', 46, 57)], assumptions=[A_MODEL, A_SIZE]),
  'C08': dict(level='proof', tags={'C08'}, profiles=[('stream', 5000, 200000)], assumptions=[A_MODEL, A_SIZE]),
  'C09': dict(level='proof', tags={'C09'}, profiles=[('any', 3000, 60000), ('writer', 800, 20000), ('stream', 800, 20000)], assumptions=[A_MODEL, A_SIZE]),
  'C10': dict(level='proof', tags={'C10'}, profiles=[('tr', 3000, 100000), ('rt', 500, 10000)], assumptions=[A_MODEL, A_SIZE]),
- 'C11': dict(level='proof', tags={'C11'}, profiles=[('nav', 4000, 150000)], assumptions=[A_MODEL, A_SIZE]),
+ 'C11': dict(level='proof', tags={'C11'}, profiles=[('nav', 4000, 150000), ('xnav', 46, 57)], assumptions=[A_MODEL, A_SIZE]),
  'C12': dict(level='proof', tags={'C12'}, profiles=[('reuse', 3000, 100000), ('writer', 500, 10000)], assumptions=[A_MODEL, A_SIZE]),
  'C13': dict(level='proof', tags={'C13'}, owns_crash=['print'], profiles=[('print', 1200, 30000), ('any', 800, 10000)], assumptions=[A_MODEL, A_SIZE, A_LIBC]),
  'C14': dict(level='proof', tags={'C14'}, profiles=[('print', 1500, 40000)], assumptions=[A_MODEL, A_SIZE, A_LIBC]),
